@@ -280,7 +280,7 @@ def run(ctx):
     global MAX_M
     MAX_M = ctx.pick(15, 21)
     maxd = ctx.pick(4, 6)
-    insts = select(ctx)
+    insts = c06.load_replay(ctx, select(ctx))
     results = c06.run_polar(ctx, insts)
     todo, errs = process(ctx, insts, results, "a", maxd)
     hist, stat = {}, {}
@@ -346,7 +346,7 @@ def run(ctx):
                           f"kernel polynomial {rel} is not in the reported ideal but was not validated as an invariant", no_input=True)
             continue
         sig = KNOWN_VIA_C16 if causal.get(id(inst)) else f"missing-relation:{label}:{rel}"
-        new = ctx.violation(sig, {"input": label, "goals": inst.get("goals") or first["names"], "closed_forms": first["exprs"],
+        new = ctx.violation(sig, {"input": label, "instance": c06.raw_instance(inst), "goals": inst.get("goals") or first["names"], "closed_forms": first["exprs"],
                                   "reported_basis": first["basis_str"], "missing_relation": rel, "degree_bound": first["D"],
                                   "relation_validated_for_all_n": True,
                                   "basis_with_true_exponent_lattice": inst["basis_str"] if causal.get(id(inst)) else None},
